@@ -37,38 +37,49 @@ def pipe(ctx):
     lp = [n for n in walk_local(fn) if isinstance(n, ast.For)]
     if len(lp) != 1 or src(lp[0].iter) != ops_p:
         raise AnalysisError('%s: operator loop not found' % loc(fn))
-    ov = lp[0].target.id
-
     def isinst(e, s, tr):
-        t = src(e['_T'])
-        if s['kind'] == 'callable':
+        x = e['_X']
+        if not (isinstance(x, ast.Name) and x.id in ('OP1', 'OP2')):
+            return None
+        kind = s['kinds'][x.id]
+        ts = e['_T'].elts if isinstance(e['_T'], ast.Tuple) else [e['_T']]
+        if kind == 'callable':
             return False
-        return t == s['kind']
+        return any(src(t) == kind for t in ts)
 
-    atoms = [('isinstance(%s, _T)' % ov, isinst)]
-    effects = [('%s = _V' % it_p, lambda e, s, tr: tr.append(src(e['_V'])))]
-    it = absint.Interp(fn, atoms, effects)
-    it.skip = lambda st: isinstance(st, (ast.Expr, ast.Assign))
-    loop_bound = {ov} | set(t.id for n in ast.walk(lp[0]) if isinstance(n, ast.Assign) for t in n.targets if isinstance(t, ast.Name))
+    atoms = [('isinstance(_X, _T)', isinst)]
+    it = absint.Interp(fn, atoms, iters=[(ops_p, lambda e, s, tr: [absint.Sym(ast.Name(id='OP1', ctx=ast.Load())),
+                                                                    absint.Sym(ast.Name(id='OP2', ctx=ast.Load()))][:s['n']])])
+    it.pure_calls = {'OP1', 'OP2', 'WhereEqual', 'filter'}
+    it.skip = lambda st: isinstance(st, ast.Expr)
+    loop_bound = set(x.id for x in ast.walk(lp[0].target) if isinstance(x, ast.Name)) | \
+        set(t.id for n in ast.walk(lp[0]) if isinstance(n, ast.Assign) for t in n.targets if isinstance(t, ast.Name))
     for n in ast.walk(lp[0]):
         if isinstance(n, (ast.GeneratorExp, ast.Lambda)):
             used = set(x.id for x in ast.walk(n) if isinstance(x, ast.Name) and isinstance(x.ctx, ast.Load)) & (loop_bound - {it_p})
             r.check(not used, 'no lazily evaluated expression captures the loop variable', n, construct=M + 'apply_query_operators', key='late-binding',
                     msg='`%s` is evaluated lazily but refers to %s, which the operator loop rebinds: when the pipeline is finally consumed every stage '
                         'sees the LAST operator (late binding), so all but one filter are ignored' % (src(n)[:70], sorted(used)))
-    want = {'WhereEqual': '%s(%s)' % (ov, it_p), 'OrderBy': '%s(%s)' % (ov, it_p), 'dict': 'WhereEqual(%s)(%s)' % (ov, it_p),
-            'callable': 'filter(%s, %s)' % (ov, it_p)}
-    for kind, w in want.items():
-        tr = []
-        try:
-            it.block(lp[0].body, {'kind': kind}, tr)
-        except (absint._Continue, absint._Break):
-            pass
-        r.check(tr == [w], 'operator of kind %s -> %s = %s' % (kind, it_p, w), fn, construct=M + 'apply_query_operators', key='stage ' + kind,
-                msg='a %s operator is applied as %s; expected the running result to be re-bound to `%s`' % (kind, tr, w))
-    last = body_without_doc(fn)[-1]
-    r.check(isinstance(last, ast.Return) and src(last.value) == it_p, 'the running result is returned', fn, construct=M + 'apply_query_operators',
-            key='return', msg='apply_query_operators does not return the running result')
+
+    def stage(kind, op, inner):
+        return {'WhereEqual': '%s(%s)', 'OrderBy': '%s(%s)', 'dict': 'WhereEqual(%s)(%s)', 'callable': 'filter(%s, %s)'}[kind] % (op, inner)
+    kinds = ['WhereEqual', 'OrderBy', 'dict', 'callable']
+    out, tr = it.run({'n': 0, 'kinds': {}})
+    r.check(out.kind == 'return' and out.value is not None and src(out.value) == it_p, 'no operator: the source is returned', fn,
+            construct=M + 'apply_query_operators', key='return', msg='apply_query_operators without operators ends with %r' % out)
+    for k1 in kinds:
+        out, tr = it.run({'n': 1, 'kinds': {'OP1': k1}})
+        w = stage(k1, 'OP1', it_p)
+        r.check(out.kind == 'return' and out.value is not None and pm.match(w, out.value) is not None,
+                'one operator of kind %s -> %s' % (k1, w), fn, construct=M + 'apply_query_operators', key='stage ' + k1,
+                msg='a %s operator is applied as %s; expected the running result `%s`' % (k1, src(out.value) if out.value is not None else out, w))
+        for k2 in kinds:
+            out, tr = it.run({'n': 2, 'kinds': {'OP1': k1, 'OP2': k2}})
+            w2 = stage(k2, 'OP2', stage(k1, 'OP1', it_p))
+            r.check(out.kind == 'return' and out.value is not None and pm.match(w2, out.value) is not None,
+                    'operators %s then %s -> %s' % (k1, k2, w2), fn, construct=M + 'apply_query_operators', key='chain',
+                    msg='operators %s then %s give %s; every operator must be applied to the running result in argument order: `%s`'
+                        % (k1, k2, src(out.value) if out.value is not None else out, w2))
 
 
 def where_filter(ctx):
